@@ -268,8 +268,12 @@ class VttContext:
 
       else:
         # set default end time code
+        # (several cues, one per region, may belong to the last, unbounded, ISD)
         LOGGER.warning("Set a default end value to paragraph (begin + 10s).")
-        self._paragraphs[-1].set_end(self._paragraphs[-1].get_begin().to_seconds() + 10.0)
+        for cue in reversed(self._paragraphs):
+          if cue.get_end() is not None:
+            break
+          cue.set_end(cue.get_begin().to_seconds() + 10.0)
 
   def style_block(self):
     """Generated CSS INLINE STYLE Block"""
